@@ -65,6 +65,7 @@ def step (a : List String) : String :=
   | "parse.special" :: rest => cmdParseSpecial rest
   | "parse.base" :: rest => cmdParseBase rest
   | "parse.agg" :: rest => cmdParseAgg rest
+  | "parse.valid" :: rest => cmdParseValid rest
   | "parse.aggbase" :: rest => cmdParseAggBase rest
   | ["canfast", h] => match Model.FastScan.fastScan (unhexs h) with
     | some true => "t" | some false => "f" | none => "n"
